@@ -286,6 +286,15 @@ class _mark_ignore_name(ast.NodeTransformer):
         return new_node
 
 
+def _assigned_names(node: ast.AST) -> List[str]:
+    "The names that assignment expressions in `node`, part of a lambda's body, bind in that lambda"
+    if isinstance(node, ast.Lambda):
+        # The body of a nested lambda is a scope of its own; its default values are not.
+        node = node.args
+    names = [node.target.id] if isinstance(node, ast.NamedExpr) else []
+    return names + [n for c in ast.iter_child_nodes(node) for n in _assigned_names(c)]
+
+
 def _lambda_parameters(node: ast.Lambda) -> List[str]:
     "Every name a lambda binds: positional, keyword-only, `*args` and `**kwargs` parameters"
     a = node.args
@@ -398,7 +407,8 @@ class _rewrite_captured_vars(ast.NodeTransformer):
         a = node.args
         a.defaults = [self.visit(d) for d in a.defaults]
         a.kw_defaults = [d if d is None else self.visit(d) for d in a.kw_defaults]
-        self._ignore_stack.append(_lambda_parameters(node))
+        # A name bound by an assignment expression in the body is local to the lambda as well.
+        self._ignore_stack.append(_lambda_parameters(node) + _assigned_names(node.body))
         node.body = self.visit(node.body)
         self._ignore_stack.pop()
         return node
